@@ -2,6 +2,7 @@ package main
 
 import (
 	"fmt"
+	"os"
 	"math/big"
 	"sort"
 	"strings"
@@ -14,11 +15,11 @@ import (
 
 // C12 reward pool solvency: claimable rewards never exceed what the pool received.
 //
-// After every step, on discarded branches: settle every validator's pending x/distribution rewards,
-// read the pool balance B(d), and measure every position's entitlement (claim with the pool topped
-// up) to get E(d). deficit(d) = E(d) - B(d) must never be positive, and it must not grow in a step
-// (clause c: value-changing events must not inflate accrued entitlements). Separately all positions
-// claim sequentially, in a rotating order, on one branch of the real state (clause a).
+// After every step: read the pool balance B(d) and every position's accrued entitlement (what the
+// reward indexes assign to it right now) to get E(d). deficit(d) = E(d) - B(d) must never be
+// positive, and it must not grow in a step (clause c: value-changing events must not inflate accrued
+// entitlements). Separately, on one discarded branch of the real state, every validator's pending
+// x/distribution rewards are settled and all positions claim sequentially in a rotating order (clause a).
 type monC12 struct {
 	step            int
 	deficit         map[string]*big.Rat
@@ -60,32 +61,72 @@ func settleAll(r *Runner, ctx sdk.Context, s *Snap) {
 			if err != nil {
 				return
 			}
-			_, _ = r.W.App.AllianceKeeper.ClaimValidatorRewards(ctx, av)
+			c, e := r.W.App.AllianceKeeper.ClaimValidatorRewards(ctx, av)
+			if os.Getenv("VERIF_C12_DEBUG") != "" {
+				fmt.Fprintf(os.Stderr, "      settle %s -> %s err=%v\n", short(v), c, e)
+			}
 		}()
 	}
 }
 
-// measureSolvency returns pool balances after settling everything and every position's entitlement.
-func measureSolvency(r *Runner, s *Snap) (pool sdk.Coins, ent map[PosKey]sdk.Coins, failed int) {
-	base := r.Branch()
-	settleAll(r, base, s)
-	pool = r.W.App.BankKeeper.GetAllBalances(base, r.W.RewardsAddr)
+// measureAccrued returns the real pool balance and every position's *accrued* entitlement: what the
+// reward indexes already assign to it (index difference x current token value, through the weight
+// change snapshots), without settling anything that is still pending in x/distribution. Pending
+// rewards are deliberately left out of clause c: how a future settlement will be split is not an
+// accrued entitlement, and a hypothetical settlement that assigns part of a reward to nobody (e.g.
+// while an asset has a staked total but no validator shares after a 100 % slash, every validator
+// counts as holding that asset's whole total) would mask an existing deficit and un-mask it again in
+// an unrelated step (seed 8 false alarm, DESIGN 6.3).
+func measureAccrued(r *Runner, s *Snap) (pool sdk.Coins, ent map[PosKey]sdk.Coins, failed int) {
+	return measureAccruedAt(r, r.Branch(), s)
+}
+
+func measureAccruedAt(r *Runner, ctx sdk.Context, s *Snap) (pool sdk.Coins, ent map[PosKey]sdk.Coins, failed int) {
+	pool = r.W.App.BankKeeper.GetAllBalances(ctx, r.W.RewardsAddr)
 	ent = map[PosKey]sdk.Coins{}
+	k := r.W.App.AllianceKeeper
 	for _, pk := range s.DelOrder {
-		ctx, _ := base.CacheContext()
-		topUp(r, ctx)
 		func() {
 			defer func() {
 				if rec := recover(); rec != nil {
 					failed++
 				}
 			}()
-			resp, err := r.QS.AllianceDelegationRewards(ctx, &alliancetypes.QueryAllianceDelegationRewardsRequest{DelegatorAddr: pk.Del, ValidatorAddr: pk.Val, Denom: pk.Denom})
+			asset, found := k.GetAssetByDenom(ctx, pk.Denom)
+			if !found {
+				failed++
+				return
+			}
+			if !asset.RewardsStarted(ctx.BlockTime()) {
+				ent[pk] = sdk.NewCoins()
+				return
+			}
+			va, err := sdk.ValAddressFromBech32(pk.Val)
 			if err != nil {
 				failed++
 				return
 			}
-			ent[pk] = resp.Rewards
+			da, err := sdk.AccAddressFromBech32(pk.Del)
+			if err != nil {
+				failed++
+				return
+			}
+			val, err := k.GetAllianceValidator(ctx, va)
+			if err != nil {
+				failed++
+				return
+			}
+			del, found := k.GetDelegation(ctx, da, va, pk.Denom)
+			if !found {
+				failed++
+				return
+			}
+			coins, _, err := k.CalculateDelegationRewards(ctx, del, val, asset)
+			if err != nil {
+				failed++
+				return
+			}
+			ent[pk] = coins
 		}()
 	}
 	return
@@ -120,7 +161,13 @@ func (m *monC12) OnStep(r *Runner, st *Step) {
 	nSettle := int64(len(post.DelOrder) + len(post.StValOrder) + 1)
 	roundTol := rmul(perSettlement, big.NewRat(nSettle, 1))
 
-	pool, ent, failed := measureSolvency(r, post)
+	pool, ent, failed := measureAccrued(r, post)
+	if os.Getenv("VERIF_C12_DEBUG") != "" {
+		fmt.Fprintf(os.Stderr, "C12DEBUG %s pool=%s\n", st.Name, pool)
+		for _, pk := range post.DelOrder {
+			fmt.Fprintf(os.Stderr, "   %s@%s/%s value=%s shares=%s ent=%s\n", short(pk.Del), short(pk.Val), pk.Denom, rstr(post.PosValue(pk)), post.Dels[pk].Shares, ent[pk])
+		}
+	}
 	if failed > 0 {
 		r.Probe("c12_entitlement_not_measurable")
 	}
@@ -211,6 +258,9 @@ func (m *monC12) OnStep(r *Runner, st *Step) {
 		switch {
 		case len(st.Slashes) > 0:
 			cls = "entitlement-inflated-by-slash"
+		case fullySlashedAsset(st.Pre) || fullySlashedAsset(post):
+			// precondition of the open finding: an asset with a staked total but no validator shares at all
+			cls = "entitlement-inflated:fully-slashed-asset"
 		case grow.Cmp(radd(getR(rounder, d), roundTol)) <= 0:
 			cls = "entitlement-inflated:token-rounding"
 		case grow.Cmp(radd(radd(getR(rounder, d), roundTol), getR(fracBound, d))) <= 0 || m.precisionLoss:
@@ -223,7 +273,7 @@ func (m *monC12) OnStep(r *Runner, st *Step) {
 		if len(st.Slashes) > 0 {
 			m.inflatedBySlash = true
 		}
-		r.Violate("C12.c", cls, fmt.Sprintf("%s: entitlements in %s exceed what the pool holds after settling everything by %s (before this step: %s); nothing was received for the difference", st.Name, d, rstr(def), rstr(prev)))
+		r.Violate("C12.c", cls, fmt.Sprintf("%s: accrued entitlements in %s exceed what the pool holds by %s (before this step: %s); nothing was received for the difference", st.Name, d, rstr(def), rstr(prev)))
 		if r.failed() {
 			return
 		}
@@ -245,6 +295,30 @@ func (m *monC12) OnStep(r *Runner, st *Step) {
 	}
 	ctx := r.Branch()
 	settleAll(r, ctx, post) // everything the pool is going to receive for the rewards accrued so far
+	// what each position can claim once everything is settled, and the rounding bounds that go with it: the
+	// settlement of the pending rewards assigns them through floor(value + 0.01) tokens and 18-digit quotients too
+	_, claimable, _ := measureAccruedAt(r, ctx, post)
+	tokenBoundA := map[string]*big.Rat{}
+	fracBoundA := map[string]*big.Rat{}
+	for _, pk := range post.DelOrder {
+		v := post.PosValue(pk)
+		relErr := new(big.Rat)
+		if a, ok := post.Assets[pk.Denom]; ok && a.TotalValidatorShares.IsPositive() {
+			if vs := ratDec(decCoinsAmount(post.ValInfos[pk.Val].ValidatorShares, pk.Denom)); vs.Sign() > 0 {
+				relErr = rmul(rquo(ratDec(a.TotalValidatorShares), vs), big.NewRat(4, 1_000_000_000_000_000_000))
+			}
+		}
+		if sh := ratDec(post.Dels[pk].Shares); sh.Sign() > 0 {
+			D := ratDec(decCoinsAmount(post.ValInfos[pk.Val].TotalDelegatorShares, pk.Denom))
+			relErr = radd(relErr, rmul(rquo(D, sh), big.NewRat(4, 1_000_000_000_000_000_000)))
+		}
+		for _, c := range claimable[pk] {
+			if v.Sign() > 0 {
+				tokenBoundA[c.Denom] = radd(getR(tokenBoundA, c.Denom), radd(rquo(ratInt(c.Amount), v), big.NewRat(1, 1)))
+			}
+			fracBoundA[c.Denom] = radd(getR(fracBoundA, c.Denom), rmul(ratInt(c.Amount), relErr))
+		}
+	}
 	for _, pk := range order {
 		ok, e := func() (ok bool, e string) {
 			defer func() {
@@ -275,6 +349,12 @@ func (m *monC12) OnStep(r *Runner, st *Step) {
 		case short.Cmp(radd(def, roundTol)) <= 0:
 			// consequence of the deficit that clause c already attributed (to an open finding, or reported)
 			cls = "pool-shortfall:accrued-deficit"
+		case short.Cmp(radd(radd(def, roundTol), getR(tokenBoundA, denom))) <= 0:
+			// the pending rewards settled above are assigned through floor(value + 0.01) tokens: a position worth
+			// 68.997 is paid as 69 tokens of an index that was divided by 68.997
+			cls = "pool-shortfall:token-rounding"
+		case short.Cmp(radd(radd(radd(def, roundTol), getR(tokenBoundA, denom)), getR(fracBoundA, denom))) <= 0 || m.precisionLoss:
+			cls = "pool-shortfall:validator-fraction-precision-loss"
 		}
 		r.Violate("C12.a", cls, fmt.Sprintf("claiming for all %d positions: %s fails: pool holds %s %s, claim needs %s (measured deficit %s, index-rounding tolerance %s)", n, pk, rstr(have), denom, rstr(need), rstr(def), rstr(roundTol)))
 		return
@@ -316,3 +396,18 @@ func parseShortfall(e string) (need, have *big.Rat, denom string) {
 }
 
 var _ = sort.Strings
+
+// fullySlashedAsset: some asset keeps a positive staked total while no validator holds shares of it
+// (every validator that held it was slashed by 100 %). The module then values every validator as
+// holding the asset's whole total (ConvertNewShareToDecToken returns totalTokens when totalShares is zero).
+func fullySlashedAsset(s *Snap) bool {
+	if s == nil {
+		return false
+	}
+	for _, a := range s.Assets {
+		if a.TotalTokens.IsPositive() && a.TotalValidatorShares.IsZero() {
+			return true
+		}
+	}
+	return false
+}
